@@ -19,6 +19,13 @@ from exactly_lib.type_val_prims.matcher.matching_result import MatchingResult
 
 M = Module('C06')
 
+# thorough tier: the contracts as run-time monitors while these suites of the repository's own tests run
+M.conformance_suites = ['exactly_lib_test.impls.types.expression.z_package_suite',
+                        'exactly_lib_test.impls.types.matcher.z_package_suite',
+                        'exactly_lib_test.impls.types.integer_matcher.z_package_suite',
+                        'exactly_lib_test.impls.types.line_matcher.z_package_suite',
+                        'exactly_lib_test.impls.types.string_transformer.z_package_suite']
+
 P_COMBI = 'exactly_lib.impls.types.matcher.impls.combinator_matchers'
 
 # ============================================================================== (b) evaluation order, laziness
@@ -1014,13 +1021,20 @@ M.contract(P_PARSER + ':_Parser.consume_mandatory_end_parentheses',
                                  or old[1].string in names_of_levels(self.grammar.infix_ops_inc_precedence__seq)),
            }, raises_only=())
 
+def is_keys_of(keys, mapping):
+    """`keys` is the key view of `mapping` (in proofs the mapping is opaque and its key view remembers it)"""
+    if is_opaque(keys):
+        return keys.mapping is mapping
+    return keys == mapping.keys()
+
+
 M.contract(P_PARSER + ':_Parser.__init__',
            params=dict(self=Inst(expression_parser._Parser),
                        grammar=Custom(lambda interp, name: PARSER.make(interp, name).grammar), parser=TOKEN_PARSER),
            ensures={
                'stores its arguments': lambda self, grammar, parser: self.grammar is grammar and self.parser is parser,
                'the prefix operator names are the keys of the prefix operator table': lambda self, grammar:
-               self.prefix_operator_names.mapping is grammar.prefix_operators,
+               is_keys_of(self.prefix_operator_names, grammar.prefix_operators),
            }, raises_only=())
 
 # ============================================================================== (e) the recursive descent: BOUNDED
